@@ -264,6 +264,15 @@ pub fn min_alo<'a>(in1: In<'a, i32>) {
     obs_snapshot!(in1.weaken_ordering::<NoOrder>().weaken_retries::<AtLeastOnce>().min());
 }
 
+/// TotalOrder + AtLeastOnce: an element may be delivered again right after itself
+pub fn first_alo<'a>(in1: In<'a, i32>) {
+    obs_snapshot!(in1.weaken_retries::<AtLeastOnce>().first());
+}
+
+pub fn last_alo<'a>(in1: In<'a, i32>) {
+    obs_snapshot!(in1.weaken_retries::<AtLeastOnce>().last());
+}
+
 pub fn count_noorder<'a>(in1: In<'a, i32>) {
     obs_snapshot!(in1.weaken_ordering::<NoOrder>().count());
 }
